@@ -172,6 +172,8 @@ def getitem(T, tvs, items):
         return strip(v)
     if _contains_union(T):
         raise Skip("positional slicing through a union")
+    if any(isinstance(x, list) for x in rest) and len([x for x in rest if x is not None]) > 1:
+        raise Skip("option-type index array combined with other index items (the library calls several of these undefined)")
     lo, hi = array_depth(T)
     # ellipsis expansion
     if sum(1 for x in rest if x is Ellipsis) > 1:
@@ -201,8 +203,17 @@ def getitem(T, tvs, items):
             expanded.append(x)
     adv_pos = [k for k, x in enumerate(expanded)
                if isinstance(x, np.ndarray) or (isinstance(x, tuple) and x[0] == "bool") or isinstance(x, list)]
-    if any(isinstance(x, list) for x in expanded) and len(adv_pos) > 1:
-        raise Skip("option-type index array combined with other advanced indexes")
+    if any(isinstance(x, list) for x in rest) and len([x for x in rest if x is not None]) > 1:
+        raise Skip("option-type index array combined with other index items (the library calls several of these undefined)")
+    nadv = 0
+    anyempty = False
+    for kpos in adv_pos:
+        x = expanded[kpos]
+        nadv += 1
+        size = int(x[1].sum()) if isinstance(x, tuple) else (len(x) if isinstance(x, list) else x.size)
+        anyempty = anyempty or size == 0
+    if nadv > 1 and anyempty:
+        raise Skip("several advanced indexes of which one selects nothing (length-0 broadcasting)")
     jag = [x for x in expanded if isinstance(x, Jagged)]
     if jag and (adv_pos or len(jag) > 1):
         raise Skip("jagged index mixed with other advanced indexes")
@@ -251,6 +262,12 @@ def _static_elem(T, items):
             return
         if k == "reg":
             size = T[1]
+            if isinstance(head, tuple) and head[0] == "bool":
+                if head[1].ndim != 1:
+                    raise Skip("multidimensional boolean index")
+                if len(head[1]) != size:
+                    raise Skip("boolean index of the wrong length")
+                head = np.nonzero(head[1])[0]
             if isinstance(head, (int, np.integer)) and not isinstance(head, (bool, np.bool_)):
                 if not -size <= int(head) < size:
                     raise RefError("index out of range for a regular dimension")
@@ -365,7 +382,10 @@ def _get_item(T, x, items, k, ctx):
     kind = T[0]
     if kind == "opt":
         if x is None:
-            # a missing element stays missing; still, the remaining items must be well-typed
+            # a missing element stays missing under basic items; whether an advanced index applied to a
+            # missing list yields None or a list of None is not fixed by the statement
+            if any(not (isinstance(it, (int, np.integer, slice))) for it in items):
+                raise Skip("advanced index applied to a missing element")
             return None
         return _get_item(T[1], x, items, k, ctx)
     if kind == "var":
